@@ -631,6 +631,30 @@ def unsetPath (spec : MsgSpec) (o : MsgObj) (id : Nat) (path : Bytes) : MsgObj Ã
         | .panic => (o, .panic)
   else (o, .ok ())
 
+/-- `UnsetFields(pâ‚, pâ‚‚, â€¦)` with several paths: the paths are processed in order and the
+call returns at the first error, keeping what the earlier paths did -/
+def unsetPaths (spec : MsgSpec) (o : MsgObj) : List (Nat Ã— Bytes) â†’ MsgObj Ã— Res Unit
+  | [] => (o, .ok ())
+  | (id, path) :: rest =>
+    match o.unsetPath spec id path with
+    | (o', .ok _) => unsetPaths spec o' rest
+    | r => r
+
+/-- `m.GetField(id).(*Composite).UnsetSubfield(tag)`: the caller reaches below the message and
+unsets one subfield of the composite object directly â€” unconditionally (no look at the presence
+sets), and the message's own presence set is not involved. An undefined tag panics in
+`CreateSubfield(nil)` after the tag was unmarked. -/
+def unsetSubDirect (spec : MsgSpec) (o : MsgObj) (id : Nat) (tag : Tag) : MsgObj Ã— Res Unit :=
+  match spec.fieldOf id with
+  | some (.comp cs subs) =>
+    match o.get id (.comp cs subs) with
+    | .comp objs set =>
+      let set' := set.filter (fun t => t != tag)
+      if lookupField subs tag then ({ o with fields := setId id (.comp (eraseKV tag objs) set') o.fields }, .ok ())
+      else ({ o with fields := setId id (.comp objs set') o.fields }, .panic)
+    | .prim _ => (o, .err)
+  | _ => (o, .err)
+
 /-- JSON text of the field with id `i` of a message -/
 def jsonAt (spec : MsgSpec) (o : MsgObj) (i : Nat) : Option (Bytes Ã— JVal) :=
   if i = 1 then some (natToDec 1, .str (Enc.hexEncodeUpper o.bitmap))
